@@ -70,7 +70,7 @@ def gen_consts(rng, names, n):
         kind = rng.choice(["i32", "u32", "f32", "bool", "i32_inferred", "f32_inferred", "u32_expr", "i32_expr",
                            "ref", "f64", "i64", "u64", "vec", "array", "f32_extreme", "i32_extreme", "neg_zero",
                            "f32_expr", "bool_expr", "zero_scalar", "zero_vec", "neg_zero_expr", "splat",
-                           "alias_typed", "alias_zero", "int_round", "alias_vec"])
+                           "alias_typed", "alias_zero", "int_round", "alias_vec", "near_math_const", "near_math_const"])
         if kind == "i32":
             v = rng.choice([0, 1, -1, 7, -12345, 2147483647, rng.randint(-10 ** 6, 10 ** 6)])
             lines.append("const %s: i32 = %d;" % (name, v))
@@ -144,6 +144,19 @@ def gen_consts(rng, names, n):
             v = rng.choice([0.25, 2.5, 100.0, 0.3])
             lines.append("const %s = %r;" % (name, v))
             truth.append((name, "PF32", "(LF32 %d%%N)" % f32_bits(v)))
+        elif kind == "near_math_const":
+            # values within a few ulps of the well-known math constants (and the constants themselves): the exported value
+            # is the value written in the shader, whatever it is close to
+            if rng.random() < 0.75:
+                txt = rng.choice(["3.1415925", "3.1415927", "3.141593", "3.1415930", "0.3183099", "0.31830987", "0.69314724", "0.6931472",
+                                  "2.7182817", "2.718282", "1.4142137", "1.4142135", "6.2831855", "6.283185", "1.5707964", "1.5707962",
+                                  "0.70710677", "0.7071068", "1.442695", "0.43429446", "2.3025851", "1.1283792", "0.63661975"])
+                lines.append(rng.choice(["const %s: f32 = %s;", "const %s = %s;"]) % (name, txt))
+                truth.append((name, "PF32", "(LF32 %d%%N)" % f32_bits(float(txt))))
+            else:
+                txt = rng.choice(["3.14159265", "3.141592653589793", "2.718281828", "0.6931471805599453", "0.693147180559945", "1.41421356237", "6.283185307179586"])
+                lines.append("const %s: f64 = %slf;" % (name, txt))
+                truth.append((name, "PF64", "(LF64 %d%%N)" % f64_bits(float(txt))))
         elif kind == "f32_expr":
             lines.append("const %s: f32 = 1.5 * 2.0 + 0.25;" % name)
             truth.append((name, "PF32", "(LF32 %d%%N)" % f32_bits(3.25)))
